@@ -92,17 +92,17 @@ Lemma word32_be32 v : (v < 4294967296)%N ->
   match be32 v with [a; b; c; d] => word32 a b c d = v | _ => False end.
 Proof.
   intros H. unfold be32, word32.
-  assert (E: (v / 16777216 < 256)%N) by (apply N.div_lt_upper_bound; lia).
-  rewrite (N.mod_small (v / 16777216) 256) by exact E.
+  replace (v / 65536)%N with (v / 256 / 256)%N by (rewrite N.div_div by lia; reflexivity).
+  replace (v / 16777216)%N with (v / 256 / 256 / 256)%N by (rewrite !N.div_div by lia; reflexivity).
   pose proof (N.div_mod v 256 ltac:(lia)) as D0.
   pose proof (N.div_mod (v / 256) 256 ltac:(lia)) as D1.
   pose proof (N.div_mod (v / 256 / 256) 256 ltac:(lia)) as D2.
-  rewrite !N.div_div in D1, D2 by lia. rewrite N.div_div in D2 by lia. cbn in D1, D2.
-  replace (v / 65536)%N with (v / (256 * 256))%N by reflexivity.
-  replace (v / 16777216)%N with (v / (256 * 256 * 256))%N by reflexivity.
-  assert (E2: ((v / (256 * 256 * 256)) mod 256 = v / (256 * 256 * 256))%N).
-  { apply N.mod_small. apply N.div_lt_upper_bound; lia. }
-  cbn in E2 |- *. rewrite E2 in D2. lia.
+  pose proof (N.mod_lt v 256 ltac:(lia)).
+  pose proof (N.mod_lt (v / 256) 256 ltac:(lia)).
+  pose proof (N.mod_lt (v / 256 / 256) 256 ltac:(lia)).
+  assert (E: ((v / 256 / 256 / 256) mod 256 = v / 256 / 256 / 256)%N).
+  { apply N.mod_small. repeat (apply N.div_lt_upper_bound; [lia|]). lia. }
+  rewrite E. lia.
 Qed.
 Lemma be32_length v : length (be32 v) = 4. Proof. reflexivity. Qed.
 
@@ -171,3 +171,242 @@ Proof.
 Qed.
 
 End Backtrace.
+
+(* ================================================================ keyed lists *)
+Lemma kget_kset_eq {A} k (v : A) l : kget k (kset k v l) = Some v.
+Proof.
+  induction l as [|[k' v'] l IH]; cbn; [now rewrite N.eqb_refl|].
+  destruct (N.eqb_spec k' k); cbn; [now rewrite N.eqb_refl|]. destruct (N.eqb_spec k' k); [contradiction|auto].
+Qed.
+Lemma kget_kset_neq {A} k k' (v : A) l : k' <> k -> kget k' (kset k v l) = kget k' l.
+Proof.
+  intros H. induction l as [|[k0 v0] l IH]; cbn.
+  - destruct (N.eqb_spec k k'); [congruence|reflexivity].
+  - destruct (N.eqb_spec k0 k); cbn.
+    + subst. destruct (N.eqb_spec k k'); [congruence|reflexivity].
+    + destruct (N.eqb_spec k0 k'); auto.
+Qed.
+Lemma kget_in {A} k (v : A) l : kget k l = Some v -> In (k, v) l.
+Proof.
+  induction l as [|[k' v'] l IH]; cbn; [discriminate|]. destruct (N.eqb_spec k' k); intros H.
+  - inversion H; subst. now left.
+  - right. auto.
+Qed.
+Lemma in_kget {A} k (v : A) l : NoDup (map fst l) -> In (k, v) l -> kget k l = Some v.
+Proof.
+  induction l as [|[k' v'] l IH]; cbn; intros ND H; [contradiction|]. inversion ND as [|? ? Hn Hd]; subst.
+  destruct H as [H|H].
+  - inversion H; subst. now rewrite N.eqb_refl.
+  - destruct (N.eqb_spec k' k); [|auto]. subst. exfalso. apply Hn. change k with (fst (k, v)). now apply in_map.
+Qed.
+Lemma keys_kset_present {A} k (v v0 : A) l : kget k l = Some v0 -> map fst (kset k v l) = map fst l.
+Proof.
+  induction l as [|[k' v'] l IH]; cbn; [discriminate|]. destruct (N.eqb_spec k' k); cbn; intros H; [now subst|].
+  f_equal. auto.
+Qed.
+Lemma keys_kset_absent {A} k (v : A) l : kget k l = None -> map fst (kset k v l) = map fst l ++ [k].
+Proof.
+  induction l as [|[k' v'] l IH]; cbn; [reflexivity|]. destruct (N.eqb_spec k' k); cbn; intros H; [discriminate|].
+  f_equal. auto.
+Qed.
+Lemma kget_none_notin {A} k (l : list (N * A)) : kget k l = None -> ~ In k (map fst l).
+Proof.
+  induction l as [|[k' v'] l IH]; cbn; [tauto|]. destruct (N.eqb_spec k' k); [discriminate|]. intros H [E|I]; [congruence|].
+  now apply IH.
+Qed.
+Lemma nodup_kset {A} k (v : A) l : NoDup (map fst l) -> NoDup (map fst (kset k v l)).
+Proof.
+  intros H. destruct (kget k l) eqn:E.
+  - now rewrite (keys_kset_present k v a l E).
+  - rewrite (keys_kset_absent k v l E). apply nodup_snoc; auto. now apply kget_none_notin.
+Qed.
+Lemma in_kset {A} k (v : A) l k' v' :
+  NoDup (map fst l) -> In (k', v') (kset k v l) -> (k' = k /\ v' = v) \/ (k' <> k /\ In (k', v') l).
+Proof.
+  induction l as [|[k0 v0] l IH]; cbn; intros ND H.
+  - destruct H as [H|[]]. inversion H; auto.
+  - inversion ND as [|? ? Hn Hd]; subst. destruct (N.eqb_spec k0 k).
+    + subst. destruct H as [H|H]; [inversion H; auto|]. right. split; [|now right].
+      intros ->. apply Hn. change k with (fst (k, v')). now apply in_map.
+    + destruct H as [H|H].
+      * inversion H; subst. right. split; auto.
+      * destruct (IH Hd H) as [A0|[A0 B0]]; auto.
+Qed.
+Lemma in_kdel {A} k (l : list (N * A)) k' v' : In (k', v') (kdel k l) -> k' <> k /\ In (k', v') l.
+Proof.
+  unfold kdel. intros H. apply filter_In in H as [H1 H2]. cbn in H2. split; auto.
+  intros ->. rewrite N.eqb_refl in H2. discriminate.
+Qed.
+Lemma nodup_kdel {A} k (l : list (N * A)) : NoDup (map fst l) -> NoDup (map fst (kdel k l)).
+Proof. intros H. unfold kdel. now apply nodup_filter_keys. Qed.
+Lemma kget_kdel_neq {A} k k' (l : list (N * A)) : k' <> k -> kget k' (kdel k l) = kget k' l.
+Proof.
+  intros H. induction l as [|[k0 v0] l IH]; cbn; [reflexivity|].
+  destruct (N.eqb_spec k0 k); cbn.
+  - subst. destruct (N.eqb_spec k k'); [congruence|auto].
+  - destruct (N.eqb_spec k0 k'); auto.
+Qed.
+
+(* ================================================================ the id generator *)
+Lemma id_succ_range x : (ID_LO <= x <= ID_HI)%N -> (ID_LO <= id_succ x <= ID_HI)%N.
+Proof. unfold id_succ, ID_LO, ID_HI. intros H. destruct (N.ltb_spec 4294967295 (x + 1)); lia. Qed.
+Lemma has_id_in a l : has_id a l = true <-> In a l.
+Proof.
+  unfold has_id. rewrite existsb_exists. split.
+  - intros (x & H1 & H2). apply N.eqb_eq in H2. now subst.
+  - intros H. exists a. split; auto. apply N.eqb_refl.
+Qed.
+(* ids handed out by the generator: in range, not in use, and the cursor stays in range *)
+Theorem id_alloc_fresh fuel : forall live cur id cur',
+  (ID_LO <= cur <= ID_HI)%N -> id_alloc fuel live cur = Some (id, cur') ->
+  ~ In id live /\ (ID_LO <= id <= ID_HI)%N /\ (ID_LO <= cur' <= ID_HI)%N.
+Proof.
+  induction fuel as [|f IH]; intros live cur id cur' Hc H; cbn in H; [discriminate|].
+  destruct (has_id cur live) eqn:E.
+  - apply IH in H; auto. now apply id_succ_range.
+  - inversion H; subst. split; [|split; [auto|now apply id_succ_range]].
+    intros Hin. apply has_id_in in Hin. congruence.
+Qed.
+(* "in range" is "32 bits with the high bit set" *)
+Lemma id_range_high_bit id : (ID_LO <= id <= ID_HI)%N <-> (N.testbit id 31 = true /\ id < 4294967296)%N.
+Proof.
+  unfold ID_LO, ID_HI. split.
+  - intros H. split; [|lia]. apply N.testbit_true. change (2 ^ 31)%N with 2147483648%N.
+    assert (id / 2147483648 = 1)%N as ->; [|reflexivity].
+    symmetry. apply (N.div_unique id 2147483648 1 (id - 2147483648)); lia.
+  - intros [H1 H2]. split; [|lia]. apply N.testbit_true in H1. change (2 ^ 31)%N with 2147483648%N in H1.
+    destruct (N.lt_ge_cases id 2147483648); [|lia]. rewrite N.div_small in H1 by lia. discriminate.
+Qed.
+
+(* ================================================================ single steps of the surveyor *)
+Definition hdr_id (h : list N) : N := match h with [a; b; c; d] => word32 a b c d | _ => 0%N end.
+Definition get_ctx (s : surv) (c : option ctxid) : option sctx := kget (ckey c) (sv_ctxs s).
+
+(* receive with no survey, or at/after the deadline: NNG_ESTATE, nothing changes (blocking or not) *)
+Theorem surv_recv_estate_no_survey fx s c a nb cx :
+  get_ctx s c = Some cx -> sc_survey cx = 0%N ->
+  surv_step fx s (PRecv c a nb) = (s, [Complete a E_STATE None]).
+Proof. unfold get_ctx. intros H E. cbn [surv_step]. rewrite H, E. reflexivity. Qed.
+Theorem surv_recv_estate_after_deadline fx s c a nb cx :
+  get_ctx s c = Some cx -> (sc_expire cx <= Z.of_N (sv_now s))%Z ->
+  surv_step fx s (PRecv c a nb) = (s, [Complete a E_STATE None]).
+Proof.
+  unfold get_ctx. intros H E. cbn [surv_step]. rewrite H.
+  apply Z.leb_le in E. rewrite E, orb_true_r. reflexivity.
+Qed.
+
+(* a response shorter than 4 bytes disconnects its sender; nothing else happens *)
+Theorem surv_short_response_disconnects fx s p m :
+  length (pm_body m) < 4 -> surv_step fx s (PRecvDone p 0 m) = (s, [Free m; ClosePipe p]).
+Proof. intros H. cbn [surv_step N.eqb negb]. destruct (surv_recv_spec (pm_body m)) as [A _]. now rewrite (A H). Qed.
+
+(* a response whose id no context currently owns (stale, foreign to every context, unknown, high bit
+   clear, zero) is discarded: the state -- every context -- is untouched and the pipe keeps receiving *)
+Theorem surv_unowned_response_discarded fx s p m id h b :
+  surv_recv (pm_body m) = Some (id, h, b) -> find_owner id (sv_ctxs s) = None ->
+  surv_step fx s (PRecvDone p 0 m) = (s, [Free (mkPmsg (pm_hdr m ++ h) b); TranRecv p]).
+Proof. intros H F. cbn [surv_step N.eqb negb]. now rewrite H, F. Qed.
+
+Lemma find_owner_some id l k c : find_owner id l = Some (k, c) -> sc_survey c = id /\ id <> 0%N /\ In (k, c) l.
+Proof.
+  unfold find_owner. destruct (N.eqb_spec id 0); [discriminate|]. intros H. apply find_some in H as [H1 H2].
+  cbn in H2. apply N.eqb_eq in H2. auto.
+Qed.
+
+(* a response whose id a context owns goes to that context and to no other: to its oldest waiting receive,
+   else into its queue (if not full); every other context is unchanged *)
+Theorem surv_owned_response fx s p m id h b k c s' outs :
+  NoDup (map fst (sv_ctxs s)) ->
+  surv_recv (pm_body m) = Some (id, h, b) -> find_owner id (sv_ctxs s) = Some (k, c) ->
+  surv_step fx s (PRecvDone p 0 m) = (s', outs) ->
+  sc_survey c = id /\ id <> 0%N /\
+  (forall k', k' <> k -> kget k' (sv_ctxs s') = kget k' (sv_ctxs s)) /\
+  sv_pipes s' = sv_pipes s /\
+  (forall a rv x, In (Complete a rv x) outs ->
+     rv = E_OK /\ x = Some (mkPmsg (pm_hdr m ++ h) b) /\ exists r, sc_rq c = a :: r) /\
+  (sc_rq c = [] -> length (sc_lmq c) < SURV_RECV_BUF ->
+     exists c', kget k (sv_ctxs s') = Some c' /\ sc_lmq c' = sc_lmq c ++ [mkPmsg (pm_hdr m ++ h) b] /\ sc_survey c' = id).
+Proof.
+  intros ND H F S. destruct (find_owner_some _ _ _ _ F) as (E1 & E2 & E3).
+  cbn [surv_step N.eqb negb] in S. rewrite H, F in S.
+  split; [exact E1|]. split; [exact E2|].
+  destruct (SURV_RECV_BUF <=? length (sc_lmq c)) eqn:FL.
+  - inversion S; subst. split; [auto|]. split; [auto|]. split.
+    + intros a rv x [X|[X|[]]]; discriminate.
+    + intros _ L. apply Nat.leb_le in FL. lia.
+  - destruct (sc_rq c) as [|a0 r0] eqn:RQ.
+    + assert (S2: sv_ctxs s' = kset k (mkSctx (sc_survey c) (sc_lmq c ++ [mkPmsg (pm_hdr m ++ h) b]) [] (sc_stime c) (sc_expire c)) (sv_ctxs s) /\
+                  sv_pipes s' = sv_pipes s /\ outs = [TranRecv p]).
+      { destruct (k =? 0)%N; inversion S; subst; cbn; auto. }
+      destruct S2 as (A & B & C). rewrite A, C. split; [|split; [auto|split]].
+      * intros k' Hk. now apply kget_kset_neq.
+      * intros a rv x [X|[]]; discriminate.
+      * intros _ _. eexists. split; [apply kget_kset_eq|]. cbn. auto.
+    + inversion S; subst. cbn [sv_ctxs sv_pipes set_ctxs]. split; [|split; [auto|split]].
+      * intros k' Hk. now apply kget_kset_neq.
+      * intros a rv x [X|[X|[]]]; inversion X; subst. split; [auto|]. split; [auto|]. eauto.
+      * discriminate.
+Qed.
+
+(* a new survey: every pending receive of that context is cancelled, its queued responses are freed,
+   the old id is retired and a fresh one (in range, owned by nobody) installed; deadline = now + survey time *)
+Theorem surv_new_survey_aborts_old fx s c a nb m cx s' outs :
+  NoDup (map fst (sv_ctxs s)) -> (ID_LO <= sv_cur s <= ID_HI)%N ->
+  get_ctx s c = Some cx -> surv_step fx s (PSend c a nb m) = (s', outs) ->
+  (forall r, In r (sc_rq cx) -> In (Complete r E_CANCELED None) outs) /\
+  (forall x, In x (sc_lmq cx) -> In (Free x) outs) /\
+  (forall r rv x, In (Complete r rv x) outs -> r <> a -> In r (sc_rq cx) /\ rv = E_CANCELED /\ x = None) /\
+  (In (Complete a E_OK None) outs ->
+     exists cx', get_ctx s' c = Some cx' /\ sc_lmq cx' = [] /\ sc_rq cx' = [] /\
+       (ID_LO <= sc_survey cx' <= ID_HI)%N /\
+       sc_expire cx' = (Z.of_N (sv_now s) + sc_stime cx)%Z /\
+       (forall k' c', k' <> ckey c -> In (k', c') (sv_ctxs s) -> sc_survey c' <> sc_survey cx') /\
+       (forall k', k' <> ckey c -> kget k' (sv_ctxs s') = kget k' (sv_ctxs s))).
+Proof.
+  unfold get_ctx. intros ND HC H S. cbn [surv_step] in S. rewrite H in S. cbn [ctx_abort] in S.
+  set (cx1 := mkSctx 0 [] [] (sc_stime cx) (sc_expire cx)) in *.
+  set (ctxs1 := kset (ckey c) cx1 (sv_ctxs s)) in *.
+  assert (FO: forall r rv x, In (Complete r rv x) (fail_aios E_CANCELED (sc_rq cx) ++ map Free (sc_lmq cx)) ->
+              In r (sc_rq cx) /\ rv = E_CANCELED /\ x = None).
+  { intros r rv x Hin. apply in_app_or in Hin as [Hin|Hin].
+    - unfold fail_aios in Hin. apply in_map_iff in Hin as (y & E & Hy). inversion E; subst. auto.
+    - apply in_map_iff in Hin as (y & E & _). discriminate. }
+  destruct (id_alloc (S (length (live_ids ctxs1))) (live_ids ctxs1) (sv_cur s)) as [[id cur']|] eqn:AL.
+  - destruct (fanout (mkPmsg (be32 id) (pm_body m)) (sv_pipes s)) as [pipes' tx] eqn:FA.
+    inversion S; subst s' outs; clear S.
+    destruct (id_alloc_fresh _ _ _ _ _ HC AL) as (NI & RG & CR).
+    assert (TXC: forall r rv x, ~ In (Complete r rv x) tx).
+    { clear - FA. revert pipes' tx FA. induction (sv_pipes s) as [|[q y] l IH]; intros pipes' tx FA; cbn in FA.
+      - inversion FA; subst. tauto.
+      - destruct (fanout (mkPmsg (be32 id) (pm_body m)) l) as [r' o] eqn:E.
+        specialize (IH r' o eq_refl).
+        destruct (sp_closed y); [inversion FA; subst; auto|].
+        destruct (sp_busy y); cbn in FA.
+        + destruct (length (sp_q y) <? SURV_SEND_BUF); inversion FA; subst; auto.
+        + inversion FA; subst. intros r rv x [X|X]; [discriminate|]. eapply IH; eauto. }
+    repeat split.
+    + intros r Hr. apply in_or_app. left. apply in_or_app. left. unfold fail_aios. apply in_map_iff. eauto.
+    + intros x Hx. apply in_or_app. left. apply in_or_app. right. now apply in_map.
+    + apply in_app_or in H0 as [X|X]; [apply FO in X; tauto|].
+      apply in_app_or in X as [X|[X|[]]]; [exfalso; eapply TXC; eauto|]. inversion X; subst. contradiction.
+    + apply in_app_or in H0 as [X|X]; [apply FO in X; tauto|].
+      apply in_app_or in X as [X|[X|[]]]; [exfalso; eapply TXC; eauto|]. inversion X; subst. contradiction.
+    + apply in_app_or in H0 as [X|X]; [apply FO in X; tauto|].
+      apply in_app_or in X as [X|[X|[]]]; [exfalso; eapply TXC; eauto|]. inversion X; subst. contradiction.
+    + intros _. eexists. cbn [sv_ctxs]. split; [apply kget_kset_eq|]. cbn. repeat split; auto; try tauto.
+      * intros k' c' Hk Hin E. apply NI. unfold live_ids. apply filter_In. split.
+        -- apply in_map_iff. exists (k', c'). split; [exact E|].
+           unfold ctxs1. clear - Hk Hin ND. induction (sv_ctxs s) as [|[k0 v0] l IH]; cbn in *; [contradiction|].
+           destruct (N.eqb_spec k0 (ckey c)).
+           ++ destruct Hin as [X|X]; [inversion X; subst; contradiction|now right].
+           ++ destruct Hin as [X|X]; [now left|]. right. inversion ND; subst. auto.
+        -- cbn. rewrite E. destruct (N.eqb_spec id 0); [|reflexivity]. unfold ID_LO in RG. lia.
+      * intros k' Hk. rewrite kget_kset_neq by auto. unfold ctxs1. now apply kget_kset_neq.
+  - inversion S; subst s' outs; clear S. repeat split.
+    + intros r Hr. apply in_or_app. left. apply in_or_app. left. unfold fail_aios. apply in_map_iff. eauto.
+    + intros x Hx. apply in_or_app. left. apply in_or_app. right. now apply in_map.
+    + apply in_app_or in H0 as [X|[X|[]]]; [apply FO in X; tauto|]. inversion X; subst. contradiction.
+    + apply in_app_or in H0 as [X|[X|[]]]; [apply FO in X; tauto|]. inversion X; subst. contradiction.
+    + apply in_app_or in H0 as [X|[X|[]]]; [apply FO in X; tauto|]. inversion X; subst. contradiction.
+    + intros X. exfalso. apply in_app_or in X as [X|[X|[]]]; [apply FO in X; destruct X as (_ & X & _); discriminate|discriminate].
+Qed.
